@@ -585,6 +585,10 @@ def fetch_real(repo, blk, unit_substs):
     except OSError as e:
         raise ExtractError(f"cannot read {path}: {e}")
     ct = find_item(src, blk.impl_pat, blk.kind, blk.name)
+    if blk.stmts or blk.closure:
+        # statement / closure anchors are matched on the text without attributes and log statements
+        ct = rule_R1_attrs(ct, log)
+        ct = rule_R2_logs(ct, log)
     if blk.stmts:
         ct = slice_statements(ct, blk.stmts[0], blk.stmts[1], blk.name)
     if blk.closure:
